@@ -416,3 +416,6 @@ def check(case, ctx):
 
 SUBS = [Sub("policies", check, strategy=case, quick=12000, thorough=200000)]
 KNOWN = {}
+
+# cases at scale (see pv/scale.py)
+RULE += scale.RULE
